@@ -28,7 +28,7 @@ m = {
     "setup_cmd": "./check setup",
     "hooks": {
         "guard": "verif",
-        "enable": "go build -tags verif (Go build tag; hook files are *_verif.go with //go:build verif)",
+        "enable": "go build -tags 'verif verifgen' (Go build tags; hook files are *_verif.go with //go:build verif; the two files that export unexported helpers of pkg/bech32 and pkg/vrf need verif && verifgen, so that a harness built with -tags verif alone still compiles when such a helper changes its signature)",
         "baseline_off_cmd": "for m in . ./pkg/curl/asm; do (cd /repo/$m && go test -mod=mod -json -vet=off -count=1 -timeout 25m ./...); done",
         "source_commits": json.load(open("hook_commits.json")) if os.path.exists("hook_commits.json") else [],
         "add_only": True,
